@@ -185,9 +185,18 @@ def parse_int(text: str, radix: int) -> Union[int, float]:
         end += 1
     if end == 0:
         return float("nan")
-    value: Union[int, float] = int(s[:end], radix)
-    if value > 2**53:
-        value = float(value)
+    digits_text = s[:end].lstrip("0") or "0"
+    value: Union[int, float]
+    if len(digits_text) > 1100:
+        # At least 2**1100 in any radix: beyond the largest double
+        value = float("inf")
+    else:
+        value = int(digits_text, radix)
+        if value > 2**53:
+            try:
+                value = float(value)
+            except OverflowError:
+                value = float("inf")
     if negative:
         return -value if value != 0 else -0.0
     return value
